@@ -262,13 +262,26 @@ func pairMatrix(c *Ctx, n int, only [][]string) {
 	raced := 0
 	for _, p := range prs {
 		sigset := map[string]bool{}
+		badset := map[string]bool{}
 		inClass := !strings.HasPrefix(p.a, "x") && !strings.HasPrefix(p.b, "x")
 		for _, cs := range all[p.id] {
+			// the variant program sets, for the model's exhaustive exploration
+			for _, l := range cs.Lines() {
+				c.Case("%s", l)
+			}
 			r := res[cs.ID]
 			if r == nil {
 				continue
 			}
 			for _, f := range r.Findings {
+				switch {
+				case strings.HasPrefix(f.Sig, "panic:"):
+					badset["panic"] = true
+				case strings.HasPrefix(f.Sig, "deadlock:"):
+					badset["deadlock"] = true
+				case strings.HasPrefix(f.Sig, "inconsistent:"):
+					badset["inconsistent"] = true
+				}
 				if strings.HasPrefix(f.Sig, "race:") {
 					sigset[f.Sig] = true
 				} else if !inClass {
@@ -298,9 +311,18 @@ func pairMatrix(c *Ctx, n int, only [][]string) {
 				}
 			}
 		}
+		var bads []string
+		for b := range badset {
+			bads = append(bads, b)
+		}
+		sort.Strings(bads)
+		bad := "-"
+		if len(bads) > 0 {
+			bad = strings.Join(bads, ",")
+		}
 		c.NCases++
-		c.Case("pair %s %s %s n=%d impl=%s sigs=%s", p.id, p.a, p.b, n, impl, sg)
-		c.Impl("%s %s", p.id, impl)
+		c.Case("pair %s %s %s n=%d impl=%s sigs=%s bad=%s", p.id, p.a, p.b, n, impl, sg, bad)
+		c.Impl("%s race=%s bad=%s", p.id, impl, bad)
 	}
 	c.Extra["pairs"] = fmt.Sprintf("%d pairs of %d op kinds x %d runs; %d pairs with a race report", len(prs), len(pairKinds), n, raced)
 }
